@@ -17,7 +17,9 @@
 //!        that the Lean oracles of C11-C13 judge)
 //! Cases (every random choice from a generator seeded by (seed, uni): partitioned runs give the same lines):
 //!   table part, for EVERY UNI number u = 1..1651: the tabulated primitive operations (`t<u>`, with `row u`), the same
-//!     operations re-based by a random unimodular matrix and origin shift (`t<u>-re`, `row u`), with translations perturbed
+//!     operations re-based by a random unimodular matrix and origin shift with the translations reduced into [0, 1)
+//!     (`t<u>-re0`) resp. (-0.5, 0.5] (`t<u>-re1`; `row u`; thorough: both for every number plus an unreduced `-raw` row for
+//!     every second one; quick: seed-dependent third / sixth), with translations perturbed
 //!     around epsilon (`-noise`), with an operation dropped / a time-reversal flag flipped / all flags set / no operation at all
 //!     (the error branches);
 //!   crystal part, for a seed-dependent sixth of the UNI numbers plus the first entry of every construct type x centering
@@ -154,14 +156,29 @@ fn table_cases(w: &mut CaseWriter, u: i32, tier: &str, seed: u64) {
     let s = (u as u64).wrapping_add(seed);
     let ops = MagneticHallSymbol::from_uni_number(u).unwrap().primitive_traverse();
     emit_s5m(w, &format!("t{}", u), &ops, 1e-8, Some(u));
-    // re-based: random unimodular change of basis and origin shift
-    let nre = if thorough { 2 } else if s % 3 == 0 { 1 } else { 0 };
-    for k in 0..nre {
+    // re-based: random unimodular change of basis and origin shift; the translations are reduced modulo 1 as the symmetry
+    // search hands them to `MagneticSpaceGroup::new`: `-re0` into [0, 1), `-re1` (a second re-basing) into (-0.5, 0.5];
+    // thorough also keeps an unreduced row (`-raw`).  quick: `-re0` for a seed-dependent third, `-re1` for a sixth.
+    let rebased = |rng: &mut Rng| -> Vec<MagneticOperation> {
         let len = rng.range(1, 5) as usize;
-        let p = crate::gen::random_unimodular(&mut rng, len, 3);
-        let shift = rand_shift(&mut rng);
-        let re = UnimodularTransformation::new(p, shift).transform_magnetic_operations(&ops);
-        emit_s5m(w, &format!("t{}-re{}", u, k), &re, 1e-8, Some(u));
+        let p = crate::gen::random_unimodular(rng, len, 3);
+        let shift = rand_shift(rng);
+        UnimodularTransformation::new(p, shift).transform_magnetic_operations(&ops)
+    };
+    let reduce = |v: &[MagneticOperation], f: &dyn Fn(f64) -> f64| -> Vec<MagneticOperation> {
+        v.iter().map(|o| MagneticOperation::new(o.operation.rotation, o.operation.translation.map(f), o.time_reversal)).collect()
+    };
+    if thorough || s % 3 == 0 {
+        let re = rebased(&mut rng);
+        emit_s5m(w, &format!("t{}-re0", u), &reduce(&re, &|e| e - e.floor()), 1e-8, Some(u));
+    }
+    if thorough || s % 6 == 1 {
+        let re = rebased(&mut rng);
+        emit_s5m(w, &format!("t{}-re1", u), &reduce(&re, &|e| e - (e - 0.5).ceil()), 1e-8, Some(u));
+    }
+    if thorough && s % 2 == 0 {
+        let re = rebased(&mut rng);
+        emit_s5m(w, &format!("t{}-raw", u), &re, 1e-8, Some(u));
     }
     // translations perturbed around epsilon (both verdicts of every comparison)
     if thorough || s % 4 == 1 {
